@@ -153,6 +153,47 @@ def case_map(rec, width, keys, kind, check_entries=True):
                               f'(a result of the earlier call is reused?)', 'case_map', args)
                 break
             rec.covered('incremental')
+        # ... and through the public .map dictionary itself (item assignment, pop, a new dict object) - sixth session
+        nk = next((k for k in range(1 << min(width, 12)) if k not in cur), None)
+        for tag in ('map-item:new', 'map-item:overwrite', 'map-pop', 'map-assign', 'map-pop-all'):
+            if tag == 'map-item:new':
+                if nk is None:
+                    continue
+                vv_ = val_for(nk, kind)
+                hm.map[nk] = vv_[0]
+                cur[nk] = vv_[1]
+            elif tag == 'map-item:overwrite':
+                k = sorted(cur)[0]
+                vv_ = val_for(k ^ 3, kind)
+                hm.map[k] = vv_[0]
+                cur[k] = vv_[1]
+            elif tag == 'map-pop':
+                if len(cur) < 2:
+                    continue
+                k = sorted(cur)[-1]
+                hm.map.pop(k)
+                cur.pop(k)
+            elif tag == 'map-assign':
+                k = sorted(cur)[0]
+                vv_ = val_for(k ^ 5, kind)
+                hm.map = {k: vv_[0]}
+                cur = {k: vv_[1]}
+            else:
+                hm.map.clear()
+                cur = {}
+            c2 = hm.serialize()
+            rec.trans()
+            if not cur:
+                if c2 is not None:
+                    rec.violation(f'incremental:{tag}', f'width {width}, keys {keys[:8]}: after the map was emptied through .map, serialize() still returns a cell', 'case_map', args)
+                    break
+                continue
+            leaves2, _ = RH.parse(RC.RCell(c2.bits.to01(), tuple(_rc(r) for r in c2.refs)), width)
+            if {kk: vv[0] for kk, vv in leaves2.items()} != cur:
+                rec.violation(f'incremental:{tag}', f'width {width}, keys {keys[:8]}: after serialize() and then an edit of .map ({tag}) a new serialize() does not hold the new map '
+                              f'(a result of the earlier call is reused?)', 'case_map', args)
+                break
+            rec.covered('incremental:map')
     except (RH.RefDictError, RC.RefCellError) as e:
         rec.violation('incremental:malformed', f'width {width}, keys {keys[:8]}: cell after an update is not a valid Hashmap: {e}', 'case_map', args)
     except Exception as e:
